@@ -950,9 +950,10 @@ static bool execOp(int idx, const Op& o) {
 		g_serReg = r;
 	}
 	else if (op == "load") {
-		FSM::Instance::SerialBuffer buf;
-		for (size_t n = 0; n < sizeof(buf.data()); ++n) buf.data()[n] = static_cast<uint8_t>((o.a >> (8 * n)) & 0xFF);
-		in.m->load(buf);
+		struct { unsigned char pre[8]; FSM::Instance::SerialBuffer buf; unsigned char post[8]; } box;
+		std::memset(static_cast<void*>(&box), 0xFF, sizeof box);		// load() must read nothing but the buffer: its neighbours are all ones
+		for (size_t n = 0; n < sizeof(box.buf.data()); ++n) box.buf.data()[n] = static_cast<uint8_t>((o.a >> (8 * n)) & 0xFF);
+		in.m->load(box.buf);
 	}
 #endif
 #if VH_HISTORY
